@@ -9,7 +9,7 @@ code and the model agree with each other but not with Prolog.
 
 Not comparable (skipped, counted): definitions chained by a second load of the same predicate (a cut
 in one chained definition does not cut the next: yldprolog's documented behaviour, not Prolog's),
-registered Python predicates that are variadic, raise or are registered after the first query, clear, queries that are closed or abandoned early, evaluate_bounded,
+registered Python predicates that are variadic, raise or are registered after the first query, queries that are closed or abandoned early, evaluate_bounded,
 loads while a query is suspended, terms only the grammar has (numeral-named structures, a/1).
 """
 from .common import Sym, sx
@@ -164,7 +164,24 @@ def plan(ops):
 
 def compare(rep, ops, real):
     """None, or a dict describing the first disagreement between the real engine's answers and the
-    textbook interpreter's"""
+    textbook interpreter's. `clear()` drops program and facts alike: the history is compared segment
+    by segment."""
+    base = 0
+    seg = []
+    for op in list(ops) + [('clear',)]:
+        if op[0] == 'clear':
+            if seg:
+                d = _compare_segment(rep, seg, real, base)
+                if d is not None:
+                    return d
+            base += sum(2 if o[0] == 'query_load' else 1 for o in seg) + 1
+            seg = []
+        else:
+            seg.append(op)
+    return None
+
+
+def _compare_segment(rep, ops, real, base):
     try:
         prog, steps = plan(ops)
     except Unsupported as e:
@@ -187,7 +204,7 @@ def compare(rep, ops, real):
             break
         if not s[3]:
             continue
-        rr = real[s[0]]
+        rr = real[base + s[0]]
         if sx(rr[2]) != 'done':
             break            # the real query ended with an exception: what follows is not comparable
         try:
@@ -198,7 +215,7 @@ def compare(rep, ops, real):
             break
         compared += 1
         if mine != theirs:
-            return {'op_index': s[0], 'query': [s[1], sx([a for a in ops_args(ops, s[0])])], 'real': theirs, 'textbook': mine}
+            return {'op_index': base + s[0], 'query': [s[1], sx([a for a in ops_args(ops, s[0])])], 'real': theirs, 'textbook': mine}
     if compared:
         rep.count('T5-histories-compared')
     return None
